@@ -452,6 +452,12 @@ be_filter_read_nolock_(struct bufferevent *underlying, void *me_)
 		else
 			state = BEV_NORMAL;
 
+		/* We are about to process the underlying input: the callback that
+		 * restarts the processing must not run (and re-enter the filter)
+		 * while the filter adds to our input; it is enabled again below
+		 * if data is left behind. */
+		evbuffer_cb_clear_flags(bufev->input, bevf->inbuf_cb,
+		    EVBUFFER_CB_ENABLED);
 		do {
 			again = 0;
 			processed_any = 0;
@@ -461,8 +467,17 @@ be_filter_read_nolock_(struct bufferevent *underlying, void *me_)
 			/* XXX This should be in process_input, not here.  There are
 			 * other places that can call process-input, and they should
 			 * force readcb calls as needed. */
-			if (!processed_any)
+			if (!processed_any) {
+				/* Nothing could be moved because the filter input
+				 * buffer is already at its read high watermark: make
+				 * sure that draining it restarts the processing of
+				 * what is left in the underlying input buffer. */
+				if (evbuffer_get_length(underlying->input) > 0 &&
+				    be_readbuf_full(bevf, state))
+					evbuffer_cb_set_flags(bufev->input,
+					    bevf->inbuf_cb, EVBUFFER_CB_ENABLED);
 				break;
+			}
 			bufferevent_trigger_nolock_(bufev, EV_READ, 0);
 			if (bufev_private->refcnt <= 0 ||
 			    evbuffer_get_length(underlying->input) == 0)
